@@ -169,6 +169,7 @@ def run(ctx):
     from .c04 import c049, c0410
     c049(ctx, rid='C05.6')
     c0410(ctx, rid='C05.8')
+    tmp_private(ctx, 'C05.9')
     ctx.rule('C05.7', 'the thread index never runs ahead of truth: every save_index in ContinuityStore is either dominated by the Ok edge of the log append / create_continuity call that made the thread it names exist, or stores an id that was found by scanning the log. An index entry written before the creation frame survives a crash as a default thread with no frames — every later append to it fails.')
     from .c01 import logical_append_sites
     lsites = logical_append_sites(P, [x for x in P.callers(APPEND) if x.fn.path.startswith(STORE)])
@@ -191,3 +192,35 @@ def run(ctx):
                'save_index %s' % ('runs only after the thread\'s creation frame is in the log' if after_truth else
                                   'stores an id found by scanning the log' if from_scan else
                                   'can run BEFORE the thread it names has a frame in the log: a crash in between leaves a default thread that does not exist'), line=sv.line)
+
+
+def tmp_private(ctx, rid):
+    """a temporary file belongs to one final file."""
+    P = ctx.prog
+    ctx.rule(rid, 'a temporary name is private to its final name: for every "create tmp, write, rename tmp -> final" pair in ripd / rip-log / rip-workspace / rip-tools the tmp path reads every parameter of the function the final path reads (it is the final path plus a suffix, or is built from the same ids), or carries a uniqueness source (uuid / pid / clock). A fixed tmp name shared by several final names (`snapshot.json.tmp` for every session) lets two writers clobber each other: one final file gets the other\'s content.')
+    UNIQ = r'uuid::|process::id$|SystemTime::now|Instant::now|now_ms$|rand|new_artifact_id|fastrand'
+    n = 0
+    for p, f in sorted(P.fns.items()):
+        if f.crate not in ('ripd', 'rip_log', 'rip_workspace', 'rip_tools'):
+            continue
+        cs = f.calls(CREATE)
+        rn = f.calls(RENAME)
+        if not cs or not rn:
+            continue
+        for c in cs:
+            pl = f.root_local(c.args[0], through_calls=(r'::as_ref$', r'::deref$', r'::as_path$'))
+            for r in rn:
+                rp = f.root_local(r.args[0], through_calls=(r'::as_ref$', r'::deref$', r'::as_path$'))
+                if rp is None or rp != pl or not f.can_reach(c.bb, r.bb):
+                    continue
+                n += 1
+                ctx.touch(f)
+                tmp_reads = reads_locals(f, c.args[0])
+                fin_reads = reads_locals(f, r.args[1])
+                params = set(range(1, f.argc + 1))
+                missing = sorted(f.lname(x) for x in (fin_reads & params) - tmp_reads)
+                uniq = any(re.search(UNIQ, s_.callee) for s_ in f.sites() if s_.dest['l'] in tmp_reads)
+                ok = not missing or uniq
+                ctx.ob(rid, f, 'tmp-private-to-final:' + c.name, ok, 'tmp path %s' % ('reads every parameter the final path reads' + (' (and a uniqueness source)' if uniq else '') if ok else
+                       'does NOT depend on %s, which the final path does: the same tmp file serves several final files — concurrent writers overwrite each other\'s content before the rename' % missing), line=c.line)
+    ctx.floor(rid, 'tmp + rename pairs', n, 15)
